@@ -299,19 +299,22 @@ impl<const RX: usize> TransportVisitor for V<RX> {
                     if dev.posted() == 0 || !inbox.is_empty() {
                         continue;
                     }
-                    let mut h = peer_hdr(OP_SHUTDOWN, 0, p_buf_alloc, p_fwd);
-                    h.flags = 3;
+                    // ... or resets it: what the peer sent before stays readable all the same.
+                    let rst = choose(2, "peer ends the connection with SHUTDOWN or RST") == 1;
+                    let mut h = peer_hdr(if rst { OP_RST } else { OP_SHUTDOWN }, 0, p_buf_alloc, p_fwd);
+                    h.flags = if rst { 0 } else { 3 };
                     dev.deliver(0, &h, &[]);
                     let r = crate::util::catch(|| cm.poll());
-                    tag("peer:shutdown");
-                    tlog!("step {}: peer SHUTDOWN with {} bytes buffered -> {:?}", step, ring_used, r);
+                    tag(if rst { "peer:reset" } else { "peer:shutdown" });
+                    tlog!("step {}: peer {} with {} bytes buffered -> {:?}", step, if rst { "RST" } else { "SHUTDOWN" }, ring_used, r);
                     k_buf_alloc = h.buf_alloc;
                     k_fwd = h.fwd_cnt;
                     if !matches!(&r, Ok(Ok(Some(ev))) if matches!(ev.event_type, VsockEventType::Disconnected { .. })) {
-                        viol("poll-event", format!("poll of SHUTDOWN -> {:?}", r));
+                        viol("poll-event", format!("poll of {} -> {:?}", if rst { "RST" } else { "SHUTDOWN" }, r));
                     }
                     if ring_used == 0 {
-                        expect_packets = vec![(OP_RST, vec![])];
+                        // A shutdown is acknowledged with a reset; a reset needs no answer.
+                        expect_packets = if rst { vec![] } else { vec![(OP_RST, vec![])] };
                         closed = true;
                     } else {
                         shutdown_pending = true;
